@@ -1389,7 +1389,12 @@ class TLSRecordLayer(object):
                 # CCS doesn't change the status of undecryptable
                 # records
                 if header.type == ContentType.change_cipher_spec:
+                    # (assigning the property starts a new byte count:
+                    # keep the one we have, or every CCS would grant
+                    # another max_early_data bytes)
+                    processed = self._recordLayer._early_data_processed
                     self._recordLayer.early_data_ok = early_data_ok
+                    self._recordLayer._early_data_processed = processed
                 yield (header, parser)
             # heartbeat message isn't made out of messages, too
             elif header.type == ContentType.heartbeat:
